@@ -81,4 +81,33 @@ Section Client.
           end
       end
     end.
+
+  (* ---- device flow: rp.DeviceAuthorization, then rp.DeviceAccessToken / client.PollDeviceAccessTokenEndpoint
+     with the poll interval the provider's answer carries (absent = 0; OPTIONAL in RFC 8628) ----
+     [after]: the wait is time.After / context.WithTimeout, which accept a non-positive duration
+     (false = time.NewTicker, which panics on one).
+     Intervals are counted in the caller's unit; more than [max_wait] units exceed the caller's deadline. *)
+  Definition int_field (k : string) (j : json) : Z :=
+    match j with JObj ms => last_int k ms 0%Z | _ => 0%Z end.
+
+  Definition max_wait : Z := 2%Z.
+
+  Definition poll (after : bool) (interval : Z) (tok : answer) : cres :=
+    if (interval <=? 0)%Z then (if after then CRetErr else CPanic)   (* attempt under an expired context: deadline exceeded *)
+    else if (max_wait <? interval)%Z then CRetErr                     (* caller's context ends first *)
+    else match http_request true HDeviceToken tok with
+         | Ok _ => CRetOk
+         | Err => CRetErr            (* refusal; or authorization_pending / slow_down until the caller's deadline *)
+         | Panic => CPanic
+         end.
+
+  Definition device_flow (after : bool) (dev tok : answer) : cres :=
+    match http_request true HDeviceAuthz dev with
+    | Err => CRetErr
+    | Panic => CPanic
+    | Ok p => match deref p with
+              | Ok j => poll after (int_field "interval" j) tok
+              | _ => CPanic
+              end
+    end.
 End Client.
